@@ -63,3 +63,12 @@ def tv(a, b=0):
     """a result that shows which value (and of which type) the body received"""
     _got("tv", locals())
     return "%s:%r|%s:%r" % (type(a).__name__, a, type(b).__name__, b)
+
+
+@memento_function(cluster=CL, version="1")
+def tu(a, b=0):
+    """computes fine for every argument; for a == "bad" the result is something that cannot be stored"""
+    _got("tu", locals())
+    if a == "bad":
+        return lambda: 1
+    return "ok:%r" % (a,)
